@@ -90,9 +90,9 @@ SingleLaw ==
 (* C01: the four spellings of one call agree (value or error kind, and the ticks of the operand) *)
 SpellingLaw ==
   (Done /\ FamSeq[pid].tag[1] = "core") =>
-     /\ results[1].r.k = "none" /\ results[2].r.k = "none"
-     /\ \A i \in 4..6 : results[i] = results[3]
-     /\ Len(results[3].out) >= 0
+     /\ \A i \in 1..4 : results[i].r.k = "none"
+     /\ \A i \in 6..8 : results[i] = results[5]
+     /\ results[9].r = [k |-> "value", v |-> MkList(<<MkSym("outer-helper"), MkSym("outer-ev")>>)]
 (* C08: the faulting form is stopped with an error of the corresponding kind in every calling
    context; the interpreter keeps exactly the effects completed before it and goes on *)
 FaultLaw ==
